@@ -93,7 +93,7 @@ class Check(BaseCheck):
             'parser built inside the callback, or on the same parser, optionally with a third evaluation interposed inside g (depth 2); both outcomes are compared with their solo '
             'outcomes; (threads) one evaluation by one of 2-16 threads each owning a parser with its own bindings, under yield injection p in {0, 0.01, 0.2}, compared with its solo '
             'outcome; (bindings) one name registered on parser A evaluated on parser B. non-trivial = the interposition really happened / the evaluation overlapped another '
-            'thread\'s evaluation / the name resolved on its own parser; distinct = distinct (f, j, g, mode) resp. (run, thread, index).')
+            'thread\'s evaluation / the name resolved on its own parser / (rendezvous) two threads were inside host callbacks of their own parsers at the same moment; distinct = distinct (f, j, g, mode) resp. (run, thread, index).')
     ASSUMPTIONS = ('concurrent use of ONE parser object from two threads is not claimed and not exercised',
                    'thread interleavings are sampled, not enumerated; a thread run in which fewer than 10% of the evaluations overlapped another thread\'s is inconclusive',
                    're-entrancy is exercised to nesting depth 2, as the statement says')
@@ -106,6 +106,7 @@ class Check(BaseCheck):
             specs.append({'campaign': 'nested', 'seed': seed, 'n': 90 if q else 2500, 'i': i})
         for i in range(16 if q else 48):
             specs.append({'campaign': 'threads', 'seed': seed, 'i': i, 'runs': 3 if q else 12, 'evals': 180 if q else 600})
+        specs.append({'campaign': 'rendezvous', 'seed': seed, 'rounds': 4 if q else 40})
         return specs
 
     def run(self, spec, rec):
@@ -393,6 +394,86 @@ class Check(BaseCheck):
         finally:
             sys.setswitchinterval(old_switch)
 
+    # ------------------------------------------------------------------ two parsers inside host callbacks at the same time
+    HOOKS = {
+        'function': ('HOSTF(1)+1', lambda p, rv: p.set_function('HOSTF', lambda *a: (rv(), 7)[1])),
+        'cell': ('A1+1', lambda p, rv: p.on('callCellValue', lambda c, s: (rv(), s(7)))),
+        'range': ('SUM(A1:B2)+1', lambda p, rv: p.on('callRangeValue', lambda a, b, s: (rv(), s([[3, 4]])))),
+        'variable': ('zz_v+1', lambda p, rv: p.on('callVariable', lambda n, s: (rv(), s(7)))),
+        'function-event': ('SUM(3,4)+1', lambda p, rv: p.on('callFunction', lambda n, a, s: rv())),
+    }
+
+    def c_rendezvous(self, spec, rec):
+        """"Under any interleaving" includes the one in which two threads are inside host callbacks of their own parsers at the same
+        moment.  Each callback announces itself and waits for the other.  The verdict is not a wall-clock deadline: it is the observation
+        that, while one thread sits in its callback, the other one is alive, has not reached its callback, and its innermost frame does
+        not move over 40 consecutive samples (blocked); a thread that is merely slow keeps moving and makes the round inconclusive."""
+        hotxlfp = env.load()
+        kinds = sorted(self.HOOKS)
+        for rnd_i in range(spec['rounds']):
+            for ka in kinds:
+                for kb in kinds:
+                    inside = {0: threading.Event(), 1: threading.Event()}
+                    release = threading.Event()
+                    met = {}
+                    out = {}
+
+                    def make(me, other):
+                        def rv():
+                            inside[me].set()
+                            met[me] = inside[other].wait(90) or release.is_set()
+                        return rv
+                    ps = {}
+                    for me, k in ((0, ka), (1, kb)):
+                        ps[me] = hotxlfp.Parser()
+                        self.HOOKS[k][1](ps[me], make(me, 1 - me))
+
+                    def work(me, k):
+                        out[me] = outcome(ps[me].parse(self.HOOKS[k][0]))
+                    ths = {0: threading.Thread(target=work, args=(0, ka), daemon=True), 1: threading.Thread(target=work, args=(1, kb), daemon=True)}
+                    for th in ths.values():
+                        th.start()
+                    verdict, still, last = None, 0, None
+                    t_end = time.time() + 60
+                    while time.time() < t_end:
+                        if inside[0].is_set() and inside[1].is_set():
+                            verdict = 'met'
+                            break
+                        one = 0 if inside[0].is_set() else (1 if inside[1].is_set() else None)
+                        if one is not None:
+                            th = ths[1 - one]
+                            fr = sys._current_frames().get(th.ident)
+                            sig = (fr.f_code.co_filename, fr.f_lineno, fr.f_lasti) if fr is not None else None
+                            if th.is_alive() and sig is not None and sig == last:
+                                still += 1
+                            else:
+                                still = 0
+                            last = sig
+                            if still >= 40:
+                                verdict = 'blocked'
+                                where = '%s:%d' % (sig[0].split('/')[-1], sig[1])
+                                break
+                        time.sleep(0.1)
+                    release.set()
+                    inside[0].set()
+                    inside[1].set()
+                    for th in ths.values():
+                        th.join(30)
+                    rec.case()
+                    rec.cov('rendezvous_hook_pairs', (ka, kb))
+                    if verdict == 'met':
+                        rec.count('rendezvous_met')
+                        rec.nt(('rendezvous', rnd_i, ka, kb))
+                        for me in (0, 1):
+                            if out.get(me) != ('ok', ('int', 8)):
+                                rec.violation('C03/evaluation-in-thread-differs-from-solo:inside-callbacks-together', hooks=(ka, kb), thread=me, outcome=out.get(me))
+                    elif verdict == 'blocked':
+                        rec.violation('C03/evaluation-blocked-while-another-parser-is-inside-a-host-callback', hooks=(ka, kb), blocked_at=where,
+                                      note='thread alive, callback not reached, innermost frame unchanged over 40 samples (4 s) while the other thread waited in its callback')
+                        return
+                    else:
+                        rec.inconcl('rendezvous of two callbacks (%s, %s) did not happen within 60 s and the other thread kept moving' % (ka, kb))
+
     # ------------------------------------------------------------------ sentinels
     def c_sentinels(self, spec, rec):
         hotxlfp = env.load()
@@ -422,6 +503,8 @@ class Check(BaseCheck):
         kinds = set(k for k, _, _ in merged['cover'].get('interposition_sites', ()))
         if not {'fn', 'cell', 'range', 'var', 'fnevent'} <= kinds:
             why.append('interposition did not go through every hook kind: %s' % sorted(kinds))
+        if c.get('rendezvous_met', 0) == 0 and not any(k.startswith('C03/evaluation-blocked') for k in merged['viol_counts']):
+            why.append('no two host callbacks of different parsers were ever inside at the same time')
         tot, ov = c.get('thread_evaluations', 0), c.get('thread_evaluations_overlapping', 0)
         if tot == 0 or ov < 0.1 * tot:
             why.append('only %d of %d thread evaluations overlapped another thread\'s evaluation' % (ov, tot))
